@@ -739,7 +739,7 @@ Definition op_ok (o : op) : Prop :=
   | OIncreaseFee _ _ a _ _ => In a U
   | ORequestBatch _ _ _ | OObserve _ _ | OBatchExecuted _ _ _ _ | OBridgeCallResult _ _ _ | OToggle _ => True
   | OBridgeCallMsg _ a r toks _ => In a U /\ In r U /\ toks_ok toks
-  | OBridgeCallIn _ r rf toks _ _ => In r U /\ In rf U /\ toks_ok toks
+  | OBridgeCallIn _ sd t rf toks _ _ _ => In sd U /\ In t U /\ In rf U /\ toks_ok toks
   | OConvertCoin _ a b _ | OConvertERC20 _ a b _ => In a U /\ In b U
   | OConvertDenom _ a b _ _ _ => In a U /\ In b U
   | OPreCrossChain _ _ a _ _ _ => In a U
@@ -766,7 +766,7 @@ Proof.
     apply keeps_bind; [apply keeps_add_outgoing_bridge_call; assumption|].
     apply keeps_updR_meta; intros; repeat split.
   - apply keeps_bridge_call_result.
-  - destruct Hok as [Ha [Hr Hp]]. apply keeps_bridge_call_in; assumption.
+  - destruct Hok as [Hs [Ha [Hr Hp]]]. apply keeps_bridge_call_in; [unfold bridge_call_receiver; destruct call_to; assumption|assumption..].
   - destruct Hok. apply keeps_with_tok; intros tk Htk. apply keeps_doB0, (B_cc HB); [eapply fromcfg_find; eassumption|assumption..].
   - destruct Hok. apply keeps_with_tok; intros tk Htk. apply keeps_doB0, (B_ce HB); [eapply fromcfg_find; eassumption|assumption..].
   - destruct Hok. apply keeps_bind; [apply keeps_guard|]. apply keeps_with_tok; intros tk Htk. apply keeps_doB0, (B_cd HB); [eapply fromcfg_find; eassumption|assumption..].
